@@ -62,6 +62,7 @@ pub fn configs(prop: &str, thorough: bool) -> Vec<(Cfg, Option<usize>)> {
                 ("overflow", vec![(0, MAX), (1, 1)], None),
                 ("overflow2", vec![(0, MAX - 1), (1, 1), (2, 1)], Some((3u8, None))),
                 ("cap<initial", vec![(0, 3)], Some((3, Some(2u128)))),
+                ("cap<sum-of-two", vec![(0, 2), (1, 2)], Some((3, Some(3u128)))),
             ] {
                 let mut c = Cfg::base(&format!("C01/refuse/{n}"));
                 c.props = p.clone();
@@ -143,9 +144,12 @@ pub fn configs(prop: &str, thorough: bool) -> Vec<(Cfg, Option<usize>)> {
                 c.hmax = H0 + 1;
                 c.kinds = kinds(&["Transfer", "Burn", "Inc", "Dec", "TransferFrom", "BurnFrom"]);
                 if !thorough {
-                    c.amounts = vec![0, 1, 2];
+                    c.initial = vec![(0, 1), (1, 1)];
+                    c.amounts = vec![0, 1];
                     c.owners = vec![0, 1];
                     c.spenders = vec![0, 1, 2];
+                    c.senders = vec![0, 1];
+                    c.grant_cap = Some(1);
                 }
                 out.push((c, None));
             }
@@ -191,6 +195,8 @@ pub fn configs(prop: &str, thorough: bool) -> Vec<(Cfg, Option<usize>)> {
                 ("cap=initial+2", vec![(4, 2)], Some((0, Some(4))), None, false),
                 ("cap0-empty", vec![], Some((0, Some(0))), None, false),
                 ("cap<initial", vec![(4, 2)], Some((0, Some(1))), None, true),
+                ("cap<sum-of-two", vec![(4, 2), (3, 2)], Some((0, Some(3))), None, true),
+                ("cap<sum-of-three", vec![(4, 1), (3, 1), (1, 1)], Some((0, Some(2))), None, true),
                 ("capmax", vec![(4, MAX - 1)], Some((0, Some(MAX))), None, false),
             ] {
                 let mut c = Cfg::base(&format!("C13/{n}"));
